@@ -43,6 +43,10 @@
 #  include <arpa/inet.h>
 #endif
 
+#ifdef HAVE_LIMITS_H
+#  include <limits.h>
+#endif
+
 #if defined(ANDROID) || defined(__ANDROID__)
 #  include <sys/system_properties.h>
 #  include "ares_android.h"
@@ -385,13 +389,36 @@ done:
   return status;
 }
 
+/* Parse the numeric value of an option.  Only an all-digit value that fits
+ * the given maximum is accepted, anything else ("ndots", "ndots:", "ndots:-1",
+ * "timeout:99999999999999999999") makes the option malformed so it gets
+ * ignored like any other unknown option. */
+static ares_bool_t option_value(const char *val, unsigned long max,
+                                unsigned int *out)
+{
+  unsigned long v;
+
+  if (val == NULL || *val == 0 || !ares_str_isnum(val)) {
+    return ARES_FALSE;
+  }
+
+  errno = 0;
+  v     = strtoul(val, NULL, 10);
+  if (errno != 0 || v > max) {
+    return ARES_FALSE;
+  }
+
+  *out = (unsigned int)v;
+  return ARES_TRUE;
+}
+
 static ares_status_t process_option(ares_sysconfig_t *sysconfig,
                                     ares_buf_t       *option)
 {
   char        **kv  = NULL;
   size_t        num = 0;
   const char   *key;
-  const char   *val;
+  const char   *val    = NULL;
   unsigned int  valint = 0;
   ares_status_t status;
 
@@ -409,20 +436,28 @@ static ares_status_t process_option(ares_sysconfig_t *sysconfig,
 
   key = kv[0];
   if (num == 2) {
-    val    = kv[1];
-    valint = (unsigned int)strtoul(val, NULL, 10);
+    val = kv[1];
   }
 
   if (ares_streq(key, "ndots")) {
+    if (!option_value(val, INT_MAX, &valint)) {
+      status = ARES_EFORMERR;
+      goto done;
+    }
+    /* Documented range is 0-15, cap like other resolvers do */
+    if (valint > 15) {
+      valint = 15;
+    }
     sysconfig->ndots = valint;
   } else if (ares_streq(key, "retrans") || ares_streq(key, "timeout")) {
-    if (valint == 0) {
+    /* Seconds, stored as milliseconds in an int by ares_save_options() */
+    if (!option_value(val, INT_MAX / 1000, &valint) || valint == 0) {
       status = ARES_EFORMERR;
       goto done;
     }
     sysconfig->timeout_ms = valint * 1000;
   } else if (ares_streq(key, "retry") || ares_streq(key, "attempts")) {
-    if (valint == 0) {
+    if (!option_value(val, INT_MAX, &valint) || valint == 0) {
       status = ARES_EFORMERR;
       goto done;
     }
